@@ -7,6 +7,8 @@
    The numeric accumulation inside a series is the client library's (modelled, Model/ClientGolang.v:
    counter sum, gauge set/add, histogram count/sum/buckets, summary count/sum). *)
 From SE Require Import Spec.SystemSpec Proofs.SystemProofs Proofs.SeriesProofs.
+From SE Require Import Spec.SampleSpec Proofs.SampleProofs.
+From SE Require Import Spec.BinarySpec Proofs.BinaryProofs.
 
 (* For every sound mapping cache and every history of lines, reloads, clock advances, sweeps and
    scrapes, the implementation model and the specification answer alike, and the registry then
@@ -26,6 +28,42 @@ Print Assumptions C01_registry_refines_flat.
 Theorem C01_samples_are_lookups : stmt_samples_are_lookups.
 Proof. exact samples_are_lookups_ok. Qed.
 Print Assumptions C01_samples_are_lookups.
+
+(* the protocol reading of one well-formed sample, for every flag set, name and label map:
+   c -> one counter event of v/r; g -> one gauge event (relative iff signed, rate ignored);
+   ms -> floor(1/r) observations of v/1000; h, d -> floor(1/r) observations of v;
+   labels untouched, one sample counted, no error *)
+Theorem C01_sample_semantics : forall pf, stmt_sample_semantics pf.
+Proof. exact sample_semantics_ok. Qed.
+Print Assumptions C01_sample_semantics.
+
+(* The running program with one listener goroutine IS the line-at-a-time system of the theorems
+   above: (1) whatever the flush threshold, the channel capacity and the interleaving with the
+   flush ticker and the consumer, the event queue hands the exporter exactly the events of the
+   listener's Queue calls, in order; (2) how they are cut into batches does not matter to the
+   exporter's loop; (3) datagrams split into lines, parsed, and handled as one stream give the
+   state that System.step reaches line by line. *)
+Theorem C01_single_listener_delivery : stmt_single_producer_delivery.
+Proof. exact single_producer_delivery_ok. Qed.
+Print Assumptions C01_single_listener_delivery.
+
+Theorem C01_batching_irrelevant : forall uni_word re_match CS c_get c_add,
+  stmt_batching_irrelevant uni_word re_match CS c_get c_add.
+Proof. exact batching_irrelevant_ok. Qed.
+Print Assumptions C01_batching_irrelevant.
+
+Theorem C01_binary_is_system : forall pf uni_word re_match CS c_get c_add,
+  stmt_binary_is_system pf uni_word re_match CS c_get c_add.
+Proof. exact binary_is_system_ok. Qed.
+Print Assumptions C01_binary_is_system.
+
+(* Non-vacuity of (1): two Queue calls ([a; b] and [c]), threshold 2, a tick for the remainder. *)
+Example C01_delivery_example :
+  exists s, qrun (qinit 2 1 [number_calls [[tt; tt]; [tt]] 0])
+                 [LAcquire 0; LAppend 0; LAppend 0; LSend 0; LRecv; LRelease 0;
+                  LAcquire 0; LAppend 0; LRelease 0; LTickAcquire; LTickSend; LTickRelease; LRecv] = Some s
+            /\ all_done s = true /\ q_chan s = [] /\ q_pending s = [] /\ concat (q_delivered s) = [0; 1; 2].
+Proof. eexists. split; [vm_compute; reflexivity|]. repeat split; reflexivity. Qed.
 
 (* Non-vacuity: an unmapped gauge sample creates exactly one series in the flat account. *)
 Definition c01_event : event := {| e_kind := KGauge false; e_name := [x67]; e_value := f_zero; e_labels := [] |}.
